@@ -1,17 +1,19 @@
 /* C03 harness: drives the SD hyperslab interface of the freshly built library through operation histories.
  *
  * Input (one token stream; every history is one dataset in one fresh file):
- *   H rank nt unlim d0..d(rank-1)        SDstart(create) + SDcreate (d0 = 0 when unlim)
+ *   H rank nt unlim d0..d(rank-1)        SDstart(create) + SDcreate (d0 = 0 when unlim); dataset 0 becomes current
+ *   D rank nt unlim d0..d(rank-1)        SDcreate of a further dataset in the same file; it becomes current
+ *   S k                                  make dataset k current (all following V/B/W/R/G address it)
  *   M mode                               SDsetfillmode(file, mode)           (0 = SD_FILL, 256 = SD_NOFILL)
  *   V hex                                SDsetfillvalue(element given as hex of its memory bytes)
  *   B n                                  SDsetblocksize
  *   W us s0.. t0.. c0.. n hex*n          SDwritedata (us = 0: stride NULL); n elements follow
  *   R us s0.. t0.. c0..                  SDreaddata  (buffer = prod max(c,0) elements, pre-set to 0xA5, guarded)
  *   G                                    SDgetinfo + SDgetfillvalue
- *   C                                    SDendaccess + SDend + SDstart(DFACC_RDWR) + SDselect(0)
+ *   C                                    SDendaccess (all) + SDend + SDstart(DFACC_RDWR) + SDselect of every dataset
  *   E                                    end of history (SDendaccess + SDend)
  * Output: one line per input record:
- *   H ok|fail / M prev / V ret / B ret / W ret | transfers / R ret g<0|1> n hex.. | transfers /
+ *   H ok|fail / D ok|fail / S ok / M prev / V ret / B ret / W ret | transfers / R ret g<0|1> n hex.. | transfers /
  *   G ret rank nt d0.. ; fv ret hex / C ok|fail / E
  * transfers = the Hsetlength/Hwrite/Hread calls (l<len>, w<pos>:<len>, r<pos>:<len>) the library issued on the
  * dataset's data element (tag DFTAG_SD) during that call, observed by link-time interposition.
@@ -93,9 +95,30 @@ int main(int argc, char **argv)
     int32 fid = FAIL, sds = FAIL;
     int rank = 0, w = 1;
     long nt = 0;
+#define MAXDS 16
+    int32 sdsv[MAXDS]; int rankv[MAXDS], wv[MAXDS]; int nds = 0, cur = 0;
     setvbuf(stdout, NULL, _IOFBF, 1 << 16);
     while (fscanf(f, "%7s", op) == 1) {
-        if (op[0] == 'H') {
+        if (op[0] == 'D') {
+            long r, u; int32 dims[MAXR + 1]; char nm[16];
+            if (fscanf(f, "%ld %ld %ld", &r, &nt, &u) != 3) return 2;
+            if (!rdvec(f, (int)r, dims) || nds >= MAXDS) return 2;
+            snprintf(nm, sizeof nm, "d%d", nds);
+            sdsv[cur] = sds;
+            sds = SDcreate(fid, nm, (int32)nt, (int32)r, dims);
+            rank = (int)r;
+            w = DFKNTsize((int32)nt | DFNT_NATIVE);
+            if (w <= 0) w = 1;
+            cur = nds++; sdsv[cur] = sds; rankv[cur] = rank; wv[cur] = w;
+            printf("D %s\n", sds == FAIL ? "fail" : "ok");
+        }
+        else if (op[0] == 'S') {
+            long k; if (fscanf(f, "%ld", &k) != 1 || k < 0 || k >= nds) return 2;
+            sdsv[cur] = sds;
+            cur = (int)k; sds = sdsv[cur]; rank = rankv[cur]; w = wv[cur];
+            printf("S ok\n");
+        }
+        else if (op[0] == 'H') {
             long r, u; int32 dims[MAXR + 1];
             if (fscanf(f, "%ld %ld %ld", &r, &nt, &u) != 3) return 2;
             rank = (int)r;
@@ -108,6 +131,7 @@ int main(int argc, char **argv)
             sds = fid == FAIL ? FAIL : SDcreate(fid, "d", (int32)nt, rank, dims);
             w = DFKNTsize((int32)nt | DFNT_NATIVE);
             if (w <= 0) w = 1;
+            nds = 1; cur = 0; sdsv[0] = sds; rankv[0] = rank; wv[0] = w;
             printf("H %s\n", sds == FAIL ? "fail" : "ok");
         }
         else if (op[0] == 'M') {
@@ -170,14 +194,22 @@ int main(int argc, char **argv)
             printf("\n");
         }
         else if (op[0] == 'C') {
-            intn a = SDendaccess(sds);
+            intn a = SUCCEED;
+            sdsv[cur] = sds;
+            for (int i = 0; i < nds; i++) if (SDendaccess(sdsv[i]) == FAIL) a = FAIL;
             intn b = SDend(fid);
             fid = SDstart(path, DFACC_RDWR);
-            sds = fid == FAIL ? FAIL : SDselect(fid, 0);
+            for (int i = 0; i < nds; i++) {
+                sdsv[i] = fid == FAIL ? FAIL : SDselect(fid, i);
+                if (sdsv[i] == FAIL) a = FAIL;
+            }
+            sds = sdsv[cur];
             printf("C %s\n", (a == FAIL || b == FAIL || sds == FAIL) ? "fail" : "ok");
         }
         else if (op[0] == 'E') {
-            intn a = sds != FAIL ? SDendaccess(sds) : FAIL;
+            intn a = sds != FAIL ? SUCCEED : FAIL;
+            sdsv[cur] = sds;
+            for (int i = 0; i < nds; i++) if (sdsv[i] == FAIL || SDendaccess(sdsv[i]) == FAIL) a = FAIL;
             intn b = fid != FAIL ? SDend(fid) : FAIL;
             fid = sds = FAIL;
             unlink(path);
